@@ -25,7 +25,7 @@ def step(desc, cmd, expect_zero=True, cwd=WT):
 BUILD = 'cmake -S . -B _build -G Ninja -DBUILD_TESTS=ON >/dev/null 2>&1 && cmake --build _build 2>&1 | tail -2'
 DEMO = 'g++ -std=gnu++11 -pthread -I%s/include %s/demo.cpp -L%s/_build -lezc3d -Wl,-rpath,%s/_build -o /tmp/wt/verify_demo' % (WT, cand, WT, WT)
 meta = json.load(open(os.path.join(cand, 'meta.json')))
-runner = meta.get('demo_runner', '/tmp/wt/verify_demo')
+runner = meta.get('demo_runner') or '/tmp/wt/verify_demo'
 good = True
 ok, _ = step('baseline build', BUILD); good &= ok
 ok, _ = step('demo compiles (baseline)', DEMO); good &= ok
